@@ -409,6 +409,16 @@ func cmdCheck(args []string) int {
 		fmt.Printf("KNOWN-FINDING: property=%s %s\n", id, kc)
 		knownHit = append(knownHit, kc)
 	}
+	if tier != "thorough" {
+		// findings that only the bounded scenario harness of the thorough tier exercises are still listed
+		for i := range known {
+			k := &known[i]
+			if k.Property == id && k.Status == "known" && strings.HasPrefix(k.Obligation, "scenario:") {
+				fmt.Printf("KNOWN-FINDING: property=%s %s (exercised by the thorough tier) — %s\n", id, k.Obligation, k.What)
+				knownHit = append(knownHit, k.Obligation)
+			}
+		}
+	}
 	for _, sk := range staleKnown {
 		fmt.Printf("NOTE: known finding %s no longer fails (stale entry in known_findings.json)\n", sk)
 	}
@@ -526,6 +536,19 @@ func cmdCheck(args []string) int {
 		thorough = e.thoroughExtras(id, keys)
 		if n, _ := thorough["smoke_violations"].(int); n > 0 {
 			for _, v := range thorough["smoke_reports"].([]string) {
+				// a scenario recorded as a known finding (any property: a crash is every property's business)
+				knownScenario := false
+				for i := range known {
+					k := &known[i]
+					if k.Status == "known" && strings.HasPrefix(k.Obligation, "scenario:") && strings.Contains(v, "scenario \""+strings.TrimPrefix(k.Obligation, "scenario:")+"\"") {
+						fmt.Printf("KNOWN-FINDING: property=%s %s — %s\n", id, k.Obligation, k.What)
+						knownHit = append(knownHit, k.Obligation)
+						knownScenario = true
+					}
+				}
+				if knownScenario {
+					continue
+				}
 				rp := filepath.Join(replayDir, "smoke.json")
 				os.MkdirAll(replayDir, 0o755)
 				bs, _ := json.MarshalIndent(thorough, "", " ")
